@@ -92,7 +92,7 @@ func contractServes(c *Contract, prop string) bool {
 		return true
 	}
 	for _, ls := range c.Loops {
-		if chk(ls.Invariants) {
+		if chk(ls.Invariants) || chk(ls.AtEnd) || hasTag(ls.Complete, prop) {
 			return true
 		}
 	}
